@@ -33,12 +33,12 @@ INV = {0: "", 1: "Mutex", 2: "ExactlyOnce", 3: "SenderFIFO", 4: "NothingStranded
        6: "LockOwner"}
 
 
-def dispatch_cfg(path, senders, per, variant, mode, nested, fails, yields, trace=False):
+def dispatch_cfg(path, senders, per, variant, mode, nested, fails, yields, trace=False, gated=()):
     with open(path, "w") as f:
         f.write(f"SPECIFICATION {'TSpec' if trace else 'DSpec'}\nCONSTANTS\n")
         f.write(f"  Senders = {{{', '.join(str(s) for s in range(1, senders + 1))}}}\n  PerSender = {per}\n")
         f.write(f'  Variant = "{variant}"\n  Mode = "{mode}"\n  MaxNested = {nested}\n  MaxFails = {fails}\n'
-                f"  MaxYields = {yields}\n")
+                f"  MaxYields = {yields}\n  Gated = {{{', '.join(str(g) for g in gated)}}}\n")
         if trace:
             f.write("CONSTRAINT Progress\nPOSTCONDITION Verdicts\n")
         else:
@@ -49,17 +49,17 @@ def dispatch_cfg(path, senders, per, variant, mode, nested, fails, yields, trace
         f.write("CHECK_DEADLOCK FALSE\n")
 
 
-def mc(chk, senders, per, variant, mode, nested, fails, yields, expect_violation=False, timeout=1500):
+def mc(chk, senders, per, variant, mode, nested, fails, yields, expect_violation=False, timeout=1500, gated=()):
     wd = tlc.workdir("dmc")
     try:
         cfg = os.path.join(wd, "d.cfg")
-        dispatch_cfg(cfg, senders, per, variant, mode, nested, fails, yields)
+        dispatch_cfg(cfg, senders, per, variant, mode, nested, fails, yields, gated=gated)
         rc, out, wall = tlc.run_tlc("Dispatch.tla", cfg, workers=16, extra=["-coverage", "1"], timeout=timeout)
         g, d = tlc.parse_stats(out)
         cov = tlc.parse_coverage(out)
         violated = re.search(r"Invariant (\w+) is violated", out)
         run = {"variant": variant, "mode": mode, "senders": senders, "per_sender": per, "nested": nested,
-               "fails": fails, "yields": yields, "distinct_states": d, "states_generated": g,
+               "fails": fails, "yields": yields, "gated": list(gated), "distinct_states": d, "states_generated": g,
                "wall_s": round(wall, 1), "violated": violated.group(1) if violated else None,
                "action_counts": {k.split(".")[-1]: v[0] for k, v in cov.items() if k.startswith("Dispatch.")}}
         chk.coverage.setdefault("mc_runs", []).append(run)
@@ -209,7 +209,16 @@ def explore_asyncio(pool, n, per, plan, yields, cap):
 
 
 def validate(chk, runs, n, per, mode, label, shards=4):
-    """TLC trace validation of a group of executions sharing (senders, per-sender, mode)."""
+    """TLC trace validation of a group of executions sharing (senders, per-sender, mode); one TLC configuration per set
+    of gated senders."""
+    groups = {}
+    for r in runs:
+        groups.setdefault(tuple(r["plan"].get("gated", [])), []).append(r)
+    for gated, rs in groups.items():
+        _validate(chk, rs, n, per, mode, label, shards, gated)
+
+
+def _validate(chk, runs, n, per, mode, label, shards, gated):
     # many schedules lead to the same observable execution: each distinct one is validated once (the verdict is
     # about the observed lines only), and stands for all the schedules that produced it
     total = len(runs)
@@ -221,7 +230,7 @@ def validate(chk, runs, n, per, mode, label, shards=4):
     wd = tlc.workdir("dcfg")
     try:
         cfg = os.path.join(wd, "t.cfg")
-        dispatch_cfg(cfg, n, per, "both", mode, 3, 3, 8, trace=True)
+        dispatch_cfg(cfg, n, per, "both", mode, 3, 3, 8, trace=True, gated=gated)
         vs, st = tlc.validate_batch(runs, module="Trace_Dispatch.tla", cfg=cfg, shards=shards, inv_names=INV,
                                     payload=lambda r: {"lines": r["lines"]})
     finally:
@@ -245,7 +254,7 @@ def validate(chk, runs, n, per, mode, label, shards=4):
         begun = sum(1 for ln in lines if ln["e"] == "B")
         put_total = calls + sum(1 for ln in lines if ln["e"] == "N")
         failed = any(ln["e"] == "E" and ln["raised"] for ln in lines)
-        feats = {"kind": "trace_rejected", "mode": mode, "at": nxt.get("e"), "inv": v["inv"],
+        feats = {"kind": "trace_rejected", "mode": mode, "at": nxt.get("e"), "inv": v["inv"], "gated": bool(gated),
                  "stranded": nxt.get("e") == "end" and begun < put_total and not failed,
                  "failure_in_run": failed, "label": label}
         chk.report(feats, f"{label} ({mode}, {n} senders x {per}): execution is not a behaviour of the dispatch "
@@ -317,6 +326,8 @@ def run(pid, tier, seed, replay):
     mc(chk, 2, 2, "both", "threads", 1, 1, 0)
     mc(chk, 3, 1, "both", "threads", 1, 1, 0)
     mc(chk, 3, 1, "both", "asyncio", 1, 1, 3)
+    mc(chk, 2, 2, "both", "threads", 1, 1, 0, gated=(2,))
+    mc(chk, 3, 1, "both", "asyncio", 0, 1, 2, gated=(2,))
     if not quick:
         # (3 senders x 2 events with a nested send AND a failure does not finish in an hour; each on its own does:
         #  22M and 15M distinct states)
@@ -328,7 +339,10 @@ def run(pid, tier, seed, replay):
     mc(chk, 2, 1, "pinned", "threads", 0, 0, 0, expect_violation=True)
     mc(chk, 2, 1, "normal", "threads", 0, 1, 0, expect_violation=True)
 
-    plans = [{}, {"nested": ["1:1"]}, {"fail": ["1:1"]}, {"fail": ["2:1"], "nested": ["1:1"]}]
+    plans = [{}, {"nested": ["1:1"]}, {"fail": ["1:1"]}, {"fail": ["2:1"], "nested": ["1:1"]},
+             # a tolerant machine and a sender whose event only exists once the machine has moved: it fires or is ignored
+             # according to the state WHEN ITS TURN COMES, whatever the state was when it was sent
+             {"gated": [2]}, {"gated": [2], "fail": ["1:1"]}]
     with ProcessPoolExecutor(max_workers=14) as pool:
         # 2. real threads, bounded preemption at every line boundary of the dispatch code
         for (n, per) in [(2, 1), (2, 2), (3, 1)]:
@@ -344,7 +358,7 @@ def run(pid, tier, seed, replay):
         # 3. asyncio tasks, every choice of ready handle
         for (n, per, yields) in [(2, 1, 1), (3, 1, 1), (2, 2, 1)] + ([] if quick else [(3, 1, 2), (4, 1, 1)]):
             runs = []
-            for plan in plans[:3] if quick else plans:
+            for plan in (plans[:3] + plans[4:5]) if quick else plans:
                 runs += explore_asyncio(pool, n, per, plan, yields, cap=300 if quick else 8000)
             chk.cov_add("asyncio_schedules", len(runs))
             pend = [r for r in runs if r.get("pending")]
